@@ -187,7 +187,7 @@ class Oracles:
         self.loc[iid] = ("edge", eid)
         if nr is not None:
             oi = self.out_idx.get((actor, eid))
-            nr.pushes.append((seq, t, oi, iid))
+            nr.pushes.append((seq, t, oi, iid, tok))
             self.node_push(nr, iid, obj, seq, t, oi, eid)
 
     def h_get(self, r):
@@ -206,7 +206,7 @@ class Oracles:
         if nr is None:
             return
         ii = self.in_idx.get((actor, eid))
-        nr.pulls.append((seq, t, ii, iid))
+        nr.pulls.append((seq, t, ii, iid, tok))
         nr.npulled += 1
         if nr.type in ("sink", "chaos_consumer"):
             self.loc[iid] = ("recv", actor)
